@@ -623,3 +623,46 @@ impl Read for SparseStream {
         Ok(n)
     }
 }
+
+// ---------------------------------------------------------------------------------------
+// Virtual tail: a real head followed by generated filler (reader-side > 4 GiB files for free)
+// ---------------------------------------------------------------------------------------
+
+/// Read + Seek over `head` followed by filler bytes up to `total` (byte at absolute position p
+/// beyond the head is `fill_byte(seed, p)`).
+pub struct VirtualTail {
+    pub head: Rc<Vec<u8>>,
+    pub total: u64,
+    pub seed: u64,
+    pub pos: u64,
+}
+
+impl VirtualTail {
+    pub fn byte_at(&self, p: u64) -> u8 {
+        if (p as usize) < self.head.len() && p < self.head.len() as u64 {
+            self.head[p as usize]
+        } else {
+            fill_byte(self.seed, p)
+        }
+    }
+}
+
+impl Read for VirtualTail {
+    fn read(&mut self, buf: &mut [u8]) -> io::Result<usize> {
+        let avail = self.total.saturating_sub(self.pos);
+        let n = (buf.len() as u64).min(avail) as usize;
+        for (i, b) in buf[..n].iter_mut().enumerate() {
+            *b = self.byte_at(self.pos + i as u64);
+        }
+        self.pos += n as u64;
+        Ok(n)
+    }
+}
+
+impl Seek for VirtualTail {
+    fn seek(&mut self, to: SeekFrom) -> io::Result<u64> {
+        let np = seek_calc(self.pos, self.total, to)?;
+        self.pos = np;
+        Ok(np)
+    }
+}
